@@ -10,6 +10,7 @@ from __future__ import annotations
 
 import datetime
 import json
+import re
 
 import common
 from common import Channel
@@ -219,7 +220,7 @@ MANIFESTS = [
 def e2e_cases(ctx, rng, count):
     out = []
     for i in range(count):
-        stream = ["bbb", "tears", "syn1", "syn2", "syn3", "syn4", "syn5", "syn7", "syn8"][i % 9]
+        stream = ["bbb", "tears", "syn1", "syn2", "syn3", "syn4", "syn5", "syn7", "syn8", "syn9"][i % 10]
         man, q = MANIFESTS[(i // 5) % len(MANIFESTS)]
         opts = [q] if q else []
         start = rng.choice(["epoch", "year", "month", "today", "explicit"])
@@ -246,12 +247,25 @@ def e2e_cases(ctx, rng, count):
                 opts.append("start=" + loc.strftime("%Y-%m-%dT%H:%M:%S") + f"{'%2B' if off >= 0 else '-'}{abs(off) // 60:02d}:{abs(off) % 60:02d}")
             else:
                 opts.append("start=" + st.strftime("%Y-%m-%dT%H:%M:%SZ"))
-        elif i % 11 == 7:
+        elif i % 13 == 7:
             # a very old stream: segment numbers beyond 2^32 (the mfhd sequence number is a 32-bit field)
             opts.append("start=" + rng.choice(["1000-01-01T00:00:00Z", "0100-06-01T12:00:00Z", "1479-12-31T23:59:59Z"]))
         else:
             opts.append("start=" + start)
         opts.append("depth=" + str(rng.choice([20, 40, 60, 120])))
+        # options that travel with the media URLs and alter the served segment (emsg boxes, protection
+        # boxes, saio spelling) but must not touch its time, number or duration
+        for k, vals, p_ in (("events", ["ping", "scte35"], .2), ("ping__inband", ["1"], .15), ("bugs", ["saio"], .15),
+                            ("acodec", ["ec-3", "any"], .15), ("leeway", ["20", "60"], .15), ("mup", ["4", "-1"], .15),
+                            ("drm", ["all", "clearkey", "playready-pro"], .3 if stream == "bbb" else 0),
+                            ("playready__piff", ["0", "1"], .15 if stream == "bbb" else 0)):
+            if rng.random() < p_:
+                opts.append(f"{k}={rng.choice(vals)}")
+        if stream == "syn9" and (i // 10) % 2 == 0:
+            # start, depth and leeway come from the stream's stored defaults only
+            opts = [o for o in opts if not o.startswith(("start=", "depth=", "leeway=", "mup="))]
+            if now.year < 2023:
+                now = now.replace(year=2023)
         url = f"/dash/live/{stream}/{man}" + ("?" + "&".join(opts) if opts else "")
         out.append((stream, url, now))
         if i % 4 == 1 and stream in ("bbb", "tears", "syn1", "syn3"):
@@ -295,7 +309,7 @@ def ch_segserve(ctx) -> Channel:
     leeway_us = int(OptionsRepository.get_default_options().leeway) * 10 ** 6
     lines, recs = [], []
     with appboot.Clock("2023-01-01T00:00:00Z") as clock:
-        for stream, url, now in e2e_cases(ctx, rng, ctx.scale(32, 500)):
+        for stream, url, now in e2e_cases(ctx, rng, ctx.scale(40, 500)):
             trk = segchecks.tracks(app, stream)
             mpd, status, fetches = segchecks.walk_manifest(app, client, clock, stream, url, now, rng,
                                                            per_rep=ctx.scale(6, 14), want_init=True)
@@ -308,7 +322,9 @@ def ch_segserve(ctx) -> Channel:
                 if f.mode == "init" or f.rep_id not in trk:
                     continue
                 t = trk[f.rep_id]
-                lines.append(model_request(t, f, mpd, leeway_us, reps[f.rep_id]))
+                mlee = re.search(r"[?&]leeway=(\d+)", url)
+                lines.append(model_request(t, f, mpd, int(mlee.group(1)) * 10 ** 6 if mlee else
+                                           segchecks.stream_leeway_us(stream, leeway_us // 10 ** 6), reps[f.rep_id]))
                 recs.append((t, f, mpd))
     model = _driver(ch, lines)
     for (t, f, mpd), mo, line in zip(recs, model, lines):
@@ -323,6 +339,13 @@ def ch_segserve(ctx) -> Channel:
                 mod, origin = int(mod), int(origin)
                 stored = t.stored_tfdt[mod - 1] if t.has_tfdt else sum(t.durs[:mod - 1])
                 pred = (200, stored + origin, int(num) & 0xFFFFFFFF)   # Model.servedSeq
+                if segchecks.event_id_overflow(f.manifest, f.mode, f.value, f.adv_d, t,
+                                               tfdt=stored + origin, dur=t.durs[mod - 1]):
+                    # the handler's decision was "serve", but an in-band event of this segment has an id
+                    # beyond 32 bits: the request is refused while the emsg box is built (C14's open finding
+                    # D13j; C01 lists the refusal) – nothing is served, so C02 has nothing to judge
+                    pred = (400, None)
+                    ch.count("refused:event-id-beyond-32-bits")
             else:
                 pred = ("bad", mo)
             got = (f.status, f.tfdt, f.seqnum) if f.status == 200 else (f.status, None)
